@@ -8,7 +8,7 @@ ids=("$@"); [ ${#ids[@]} -eq 0 ] && ids=($(ls seeded | grep -E '^C[0-9]+-[0-9]+$
 for id in "${ids[@]}"; do
   prop=$(python3 -c "import json;print(json.load(open('seeded/$id/meta.json'))['property'])")
   git -C /repo apply "seeded/$id/patch.diff" || { echo "$id: patch does not apply" >&2; continue; }
-  out=$(./check "$prop" --tier quick 2>&1); rc=$?
+  out=$(VERIF_EVIDENCE_DIR=/verif/target/seedtest-evidence ./check "$prop" --tier quick 2>&1); rc=$?
   git -C /repo checkout -- . 
   classes=$(echo "$out" | grep -oE "^VIOLATION property=$prop replay=[^ ]+" | sed -E "s/.*replays\/$prop-//; s/-[0-9]+\.json//" | sort -u | tr '\n' ' ')
   python3 - "$id" "$prop" "$rc" "$classes" <<'PY'
